@@ -9,7 +9,7 @@ from ..effects import MUTATORS
 from ..model import AnalysisError, ClassInfo, FuncInfo, Program, dotted, norm
 from ..report import Check
 from ..types import FuncScope, members, types_of, walk_own
-from ..util import assigned_names, calls_in, guard_edges, node_exprs, short, walk_no_defs
+from ..util import assigned_names, calls_in, classify_cond, guard_edges, is_unset_expr, node_exprs, short, walk_no_defs
 
 OPENAPI = 'pjrpc.server.specs.openapi.OpenAPI'
 OPENRPC = 'pjrpc.server.specs.openrpc.OpenRPC'
@@ -252,6 +252,186 @@ def run(ck: Check, prog: Program) -> None:
         _ref_closed(ck, prog, ci, funcs)
         _template_copy(ck, prog, ci, schema)
     _iface_shape(ck, prog)
+    _encodable(ck, prog)
+    _none_leak(ck, prog)
+
+
+EXTRACTORS_PKG = 'pjrpc.server.specs.extractors'
+
+
+def _unset_in_plain_mappings(prog: Program) -> List[Tuple[FuncInfo, ast.AST, str]]:
+    """Sites where a schema extractor stores a possibly-UNSET value inside a plain dict (not a dataclass field): the value
+    travels into the document as part of an opaque mapping."""
+    from ..flow import Flow
+    out = []
+    for f in prog.iter_funcs():
+        if not f.module.name.startswith(EXTRACTORS_PKG) or f.cls is None:
+            continue
+        cfg = None
+        for x in walk_own(f.node):
+            vals: List[Tuple[ast.AST, ast.expr]] = []
+            if isinstance(x, ast.Dict):
+                vals = [(x, v) for k, v in zip(x.keys, x.values) if k is not None]
+            elif isinstance(x, ast.Assign) and isinstance(x.targets[0], ast.Subscript):
+                vals = [(x, x.value)]
+            for site, v in vals:
+                leaves = [v]
+                stack = [v]
+                leaves = []
+                while stack:
+                    y = stack.pop()
+                    if isinstance(y, ast.IfExp):
+                        stack += [y.body, y.orelse]
+                    elif isinstance(y, ast.BoolOp):
+                        stack += list(y.values)
+                    else:
+                        leaves.append(y)
+                if any(is_unset_expr(prog, f, y) for y in leaves):
+                    out.append((f, site, norm(v)[:70]))
+    return out
+
+
+def _is_deep_cleaner(prog: Program, g: FuncInfo) -> bool:
+    """g(obj) removes UNSET at every depth: it recurses into mapping values and into sequence elements and filters the sentinel."""
+    calls_self = [x for x in walk_own(g.node) if isinstance(x, ast.Call) and dotted(x.func) == g.name]
+    tests = [x for x in walk_own(g.node) if (isinstance(x, ast.Compare) and any(is_unset_expr(prog, g, c) for c in x.comparators))
+             or (isinstance(x, ast.Call) and dotted(x.func) == 'isinstance' and len(x.args) == 2 and 'UnsetType' in norm(x.args[1]))]
+    over_dict = any(isinstance(x, ast.Call) and isinstance(x.func, ast.Attribute) and x.func.attr in ('items', 'values') for x in walk_own(g.node))
+    over_seq = any(isinstance(x, ast.Call) and dotted(x.func) == 'isinstance' and len(x.args) == 2 and 'list' in norm(x.args[1]) for x in walk_own(g.node))
+    return len(calls_self) >= 2 and bool(tests) and over_dict and over_seq
+
+
+def _encodable(ck: Check, prog: Program) -> None:
+    """ENCODABLE: the UNSET sentinel cannot survive into a generated document.  Dataclass fields are filtered by both generators,
+    but extractors also put UNSET inside plain schema dicts; dataclasses.asdict applies dict_factory to dataclass instances only
+    (stdlib semantics, trusted), so such a value is removed only by a cleaner that recurses through mappings and sequences."""
+    from ..flow import Flow
+    sites = _unset_in_plain_mappings(prog)
+    ck.extra['unset_in_plain_mappings'] = [f'{f.module.rel}:{getattr(site, "lineno", 0)} {txt}' for f, site, txt in sites]
+    for cq in (OPENAPI, OPENRPC):
+        ci = prog.cls(cq)
+        schema = ci.methods['schema']
+        cfg = CFG(schema, prog)
+        fl = Flow(cfg)
+        deep = True
+        shown = []
+        rets = [n for n in cfg.stmt_nodes() if n.kind == 'stmt' and isinstance(n.ast, ast.Return) and n.ast.value is not None]
+        if not rets:
+            raise AnalysisError(f'{schema.qualname}: no return value')
+        for n in rets:
+            for al in fl.alts(n, n.ast.value):
+                v = al.expr
+                shown.append(norm(v)[:60])
+                ok_here = False
+                if isinstance(v, ast.Call):
+                    ent = prog.resolve(schema.module, v.func)
+                    if isinstance(ent, FuncInfo) and _is_deep_cleaner(prog, ent):
+                        ok_here = True
+                if not ok_here:
+                    deep = False
+        ok = deep or not sites
+        ck.ob('ENCODABLE', f'{ci.name}.schema: the UNSET sentinel is removed at every depth before the document is returned', ok,
+              sample={'returns': shown, 'unset_inside_plain_dicts': len(sites)})
+        if not ok:
+            f0, site0, txt0 = sites[0]
+            ck.finding('ENCODABLE', schema.qualname, 'UNSET can survive inside extractor-provided mappings', schema.module.rel, rets[0].line,
+                       f'{ci.name}.schema returns `{shown[0]}`: sentinel filtering that is applied to dataclass fields only (dict_factory) '
+                       f'does not reach plain dicts embedded in the document, and {len(sites)} extractor site(s) store a possibly-UNSET '
+                       f'value inside such a dict (e.g. {f0.module.rel}:{getattr(site0, "lineno", 0)} `{txt0}`): the document then '
+                       f'contains the UNSET object and json.dumps(document) raises TypeError',
+                       [f'{f.module.rel}:{getattr(site, "lineno", 0)} {txt}' for f, site, txt in sites[:6]])
+    ck.require('ENCODABLE', 'extractor sites storing a possibly-UNSET value in a plain dict (rule anchor)', len(sites), 1)
+
+
+def _optional_attrs_of_docstring_parser() -> Tuple[Set[str], str]:
+    """Attributes of the docstring_parser result objects that can be None — read from the installed library's SOURCE (ast)."""
+    import importlib.util
+    import os
+    fallback = {'description', 'short_description', 'long_description', 'type_name', 'returns', 'deprecation', 'default', 'is_optional',
+                'return_name', 'version', 'snippet'}
+    try:
+        spec = importlib.util.find_spec('docstring_parser')
+        path = os.path.join(os.path.dirname(spec.origin), 'common.py') if spec and spec.origin else None
+        if not path or not os.path.exists(path):
+            return fallback, 'built-in table (library source not found)'
+        tree = ast.parse(open(path).read())
+    except Exception:
+        return fallback, 'built-in table (library source unreadable)'
+    out: Set[str] = set()
+    for c in [x for x in tree.body if isinstance(x, ast.ClassDef)]:
+        for m in [x for x in c.body if isinstance(x, ast.FunctionDef)]:
+            if m.name == '__init__':
+                opt_params = {a.arg for a in m.args.args + m.args.kwonlyargs if a.annotation is not None and 'Optional' in norm(a.annotation)}
+                for st in ast.walk(m):
+                    if isinstance(st, ast.Assign) and isinstance(st.targets[0], ast.Attribute) and dotted(st.targets[0].value) == 'self':
+                        if isinstance(st.value, ast.Name) and st.value.id in opt_params:
+                            out.add(st.targets[0].attr)
+                        if isinstance(st.value, ast.Constant) and st.value.value is None:
+                            out.add(st.targets[0].attr)
+            elif any(dotted(d) == 'property' for d in m.decorator_list) and m.returns is not None and 'Optional' in norm(m.returns):
+                out.add(m.name)
+    return (out or fallback), f'derived from {path}'
+
+
+def _none_leak(ck: Check, prog: Program) -> None:
+    """NONE-LEAK: a docstring-parser attribute that can be None is never put into a document value unguarded (`"summary": null`,
+    `"type": null` fail the OpenAPI / OpenRPC meta-schemas)."""
+    from ..flow import Flow, _expand_ifexp
+    opt, how = _optional_attrs_of_docstring_parser()
+    ck.trusted.append(f'Optional attributes of docstring_parser result objects: {sorted(opt)} ({how})')
+    sites = 0
+    for f in prog.iter_funcs():
+        if f.module.name != EXTRACTORS_PKG + '.docstring' or f.cls is None or not f.name.startswith('extract_'):
+            continue
+        ck.functions.add(f.qualname)
+        cfg = CFG(f, prog)
+        fl = Flow(cfg)
+        cands: List[Tuple[Node, ast.expr, str]] = []
+        for n in cfg.stmt_nodes():
+            a = n.ast
+            if n.kind != 'stmt':
+                continue
+            if isinstance(a, ast.Return) and a.value is not None and not isinstance(a.value, (ast.Tuple, ast.Dict)):
+                cands.append((n, a.value, 'returned value'))
+            for x in walk_no_defs_local(a):
+                if isinstance(x, ast.Dict):
+                    for k, v in zip(x.keys, x.values):
+                        if k is not None:
+                            cands.append((n, v, f'value of {norm(k)}'))
+        for n, v, what in cands:
+            for al in fl.alts(n, v, boolops=True):
+                leaf = al.expr
+                if not (isinstance(leaf, ast.Attribute) and leaf.attr in opt):
+                    continue
+                root = leaf
+                while isinstance(root, ast.Attribute):
+                    root = root.value
+                if not isinstance(root, ast.Name) or root.id in ('self', 'method', 'cls'):
+                    continue
+                sites += 1
+                d = dotted(leaf)
+                guarded = False
+                for c, pol in al.guards:
+                    k = classify_cond(prog, f, c)
+                    if k.subject == d and ((k.kind == 'is-none' and k.negated == pol) or (k.kind == 'truthy' and (not k.negated) == pol)):
+                        guarded = True
+                ck.ob('NONE-LEAK', f'{short(f.qualname)}: `{d}` ({what}) is None-guarded', guarded)
+                if not guarded:
+                    ck.finding('NONE-LEAK', f.qualname, f'{d} reaches the document unguarded ({what})', f.module.rel, n.line,
+                               f'`{d}` can be None (docstring without that part) and is used as {what} without a None test: the generated '
+                               f'documents then contain null there ("summary": null / "type": null), which the OpenAPI / OpenRPC '
+                               f'meta-schemas reject; the neighbouring members are guarded (`… if … is not None else UNSET` / `… or UNSET`)')
+    ck.require('NONE-LEAK', 'optional docstring attributes embedded in document values', sites, 3)
+
+
+def walk_no_defs_local(a: ast.AST):
+    stack = [a]
+    while stack:
+        x = stack.pop()
+        yield x
+        for ch in ast.iter_child_nodes(x):
+            if not isinstance(ch, (ast.FunctionDef, ast.AsyncFunctionDef, ast.ClassDef, ast.Lambda)):
+                stack.append(ch)
 
 
 def _mutations(f: FuncInfo) -> List[Tuple[ast.AST, ast.expr, str]]:
